@@ -6,7 +6,7 @@ bounded structures chosen by the solver; each is rendered by the real TemplateWr
 is parsed: every relative href/src must resolve to a written file and, with a fragment, to an id/name in that file; every
 visible object must have its page / anchor; url fields of the search documents likewise.
 """
-from lib.hx import harness, pick, pickb, done, tier, PART, note, known, THOROUGH
+from lib.hx import harness, pick, pickb, done, tier, PART, note, known, THOROUGH, sample
 
 PROPERTY = "C11"
 LEVEL = "exploration"
@@ -43,6 +43,7 @@ THEMES = ["classic", "base", "readthedocs"]
 
 def check_render(kw, pi, theme, samename=False):
     sources, exporter, newname = T.gen(samename=samename, **kw)
+    sample(shape=kw, privacy=[(p.name, m) for p, m in PRIVACY[pi]], theme=theme, sources={k: v[0] for k, v in sources.items()})
     opts = copy.copy(PJ.OPTS)
     opts.privacy = list(PRIVACY[pi])
     s = PJ.build(sources, opts=opts)
